@@ -14,6 +14,13 @@ Theorem connects_all_succeed : forall d s lk n sch,
 Proof. exact connects_all_succeed_l. Qed.
 Print Assumptions connects_all_succeed.
 
+(* "no statement hangs": without the lock, EVERY schedule that gives each of the n sessions at least 8 turns finishes every
+   connect (each own turn moves a connect strictly closer to its end, whatever the others do in between) *)
+Theorem connects_terminate : forall d s n sch, (forall i, (i < n)%nat -> (8 <= occ i sch)%nat) ->
+  all_done (snd (run_sched false sch (e0, map mk_sess (repeat [Connect d s] n)))) = true.
+Proof. exact connects_terminate_l. Qed.
+Print Assumptions connects_terminate.
+
 (* For EVERY number of sessions inserting any values into one existing table under EVERY schedule: every insert
    succeeds and the table ends with its old rows plus exactly the inserted values *)
 Theorem inserts_not_lost : forall k lk sch e rows (scripts : list (list Z)),
